@@ -105,9 +105,13 @@ def regression_f1(ctx, b):
 def run(ctx):
     b = build.build("asan")
     comps_t = gen.COMPS
-    for (name, cfg, entries) in shape_list(ctx):
+    sl = shape_list(ctx)
+    for (name, cfg, entries) in sl:
         run_shape(ctx, b, name, cfg, entries, nprobe=300 if ctx.quick() else 4000,
                   comps=("none",) if ctx.quick() else comps_t)
+    # the same histories on a table that starts beyond 4 GiB in a sparse file (block positions need 64 bits on every path)
+    for (name, cfg, entries) in ([sl[0]] if ctx.quick() else sl[:3]):
+        run_shape(ctx, b, name + "_far", dict(cfg, prefix=(1 << 32) + 4096 + 13, sparse=True), entries, nprobe=150 if ctx.quick() else 2000)
     regression_f1(ctx, b)
     random_histories(ctx, b)
     cov = {
